@@ -26,9 +26,10 @@ type VerifHandled struct {
 // VerifRecorder implements daemoner; Handle() of every registered message ends in recordMessageEvent
 // (or, for PONG, in DaemonConfig), which are recorded in order. Every other method is unreachable from Handle.
 type VerifRecorder struct {
-	Cfg     DaemonConfig
-	Handled []VerifHandled
-	Other   []string
+	Cfg      DaemonConfig
+	CfgCalls int
+	Handled  []VerifHandled
+	Other    []string
 }
 
 func (r *VerifRecorder) recordMessageEvent(m asyncMessage, c *gnet.MessageContext) error {
@@ -37,8 +38,16 @@ func (r *VerifRecorder) recordMessageEvent(m asyncMessage, c *gnet.MessageContex
 	return nil
 }
 func (r *VerifRecorder) DaemonConfig() DaemonConfig {
-	r.Handled = append(r.Handled, VerifHandled{Pong: true})
+	r.CfgCalls++
 	return r.Cfg
+}
+
+// VerifNoteHandled is called by the harness after each receiveMessage: a Handle that ended without a message event
+// but read the daemon config is the PONG handler (it has nothing to queue).
+func (r *VerifRecorder) VerifNoteHandled(eventsBefore, cfgCallsBefore int) {
+	if len(r.Handled) == eventsBefore && r.CfgCalls > cfgCallsBefore {
+		r.Handled = append(r.Handled, VerifHandled{Pong: true})
+	}
 }
 func (r *VerifRecorder) other(s string) { r.Other = append(r.Other, s) }
 func (r *VerifRecorder) Disconnect(addr string, x gnet.DisconnectReason) error {
@@ -114,16 +123,18 @@ func VerifMessageIDs() []string {
 
 // ---- C23: the private truncate functions (the exported New…Message constructors call them) -------------
 
-func VerifTruncateGiveBlocks(m *GiveBlocksMessage, max uint64)    { truncateGiveBlocksMessage(m, max) }
-func VerifTruncateGiveTxns(m *GiveTxnsMessage, max uint64)        { truncateGiveTxnsMessage(m, max) }
-func VerifTruncateGivePeers(m *GivePeersMessage, max uint64)      { truncateGivePeersMessage(m, max) }
+func VerifTruncateGiveBlocks(m *GiveBlocksMessage, max uint64) { truncateGiveBlocksMessage(m, max) }
+func VerifTruncateGiveTxns(m *GiveTxnsMessage, max uint64)     { truncateGiveTxnsMessage(m, max) }
+func VerifTruncateGivePeers(m *GivePeersMessage, max uint64)   { truncateGivePeersMessage(m, max) }
 func VerifTruncateAnnounceTxns(m *AnnounceTxnsMessage, max uint64) {
 	m.Transactions = truncateAnnounceTxnsHashes(m, max)
 }
 func VerifTruncateGetTxns(m *GetTxnsMessage, max uint64) {
 	m.Transactions = truncateGetTxnsHashes(m, max)
 }
-func VerifMaxSizeGiveBlocksMessage(maxBlockSize uint32) uint64 { return maxSizeGiveBlocksMessage(maxBlockSize) }
+func VerifMaxSizeGiveBlocksMessage(maxBlockSize uint32) uint64 {
+	return maxSizeGiveBlocksMessage(maxBlockSize)
+}
 
 // ---- C25: a real Daemon driven event by event -------------------------------------------------------
 
